@@ -8,7 +8,7 @@ import tailmon, callers
 # (apps in the app set, apps in the response, installer results); 'contract' = one result per offered app
 SHAPES = {'quick': [(1, 1, 'contract'), (2, 1, 'contract'), (1, 2, 'contract')],
           'thorough': [(1, 1, 'contract'), (2, 1, 'contract'), (1, 2, 'contract'), (2, 2, 'contract'), (2, 3, 'contract'), (1, 2, 1), (1, 1, 2)]}
-KEEP = ('announced-states', 'check-result')
+KEEP = ('announced-states', 'check-result', 'check-body-frame')
 
 
 def parts(chk, pid):
